@@ -140,6 +140,19 @@ fn registry() -> Vec<Entry> {
             let op = Select::new(Random).and(Select::new(Tournament::binary())).then_map(GenomeExtractor).then(Recombine::new(TwoPointXo));
             format!("{:?}", op.apply(&p, r).map_err(|e| e.to_string()))
         }),
+        ("pipeline map over a Vec of genomes", |r, f| {
+            // up to 2049 genomes: a mapped operator may be spread over worker threads past some
+            // length, and then has to keep drawing from the generator it was handed
+            let genomes: Vec<Vec<bool>> = (0..sz(f, 17)).map(|i| (0..6).map(|j| (f >> ((i + j) % 64)) & 1 == 1).collect()).collect();
+            let op = ec_core::operator::identity::Identity.map(Mutate::new(WithRate::new(0.4)));
+            format!("{:?}", op.apply(genomes, r).map_err(|e| e.to_string()))
+        }),
+        ("pipeline map over an array and a pair", |r, f| {
+            let a: Vec<bool> = (0..sz(f, 18)).map(|i| (f >> (i % 64)) & 1 == 1).collect();
+            let b: Vec<bool> = a.iter().map(|x| !x).collect();
+            let op = ec_core::operator::identity::Identity.map(Mutate::new(WithRate::new(0.4)));
+            format!("{:?} {:?}", op.apply([a.clone(), b.clone()], r).map_err(|e| e.to_string()), op.apply((a, b), r).map_err(|e| e.to_string()))
+        }),
         ("GenomeScorer over a pipeline", |r, f| {
             let p = bit_population(f);
             let maker = Select::new(Best).then(GenomeExtractor).then(Mutate::new(WithRate::new(0.5)));
@@ -422,7 +435,7 @@ pub fn run(args: &Args) -> i32 {
     rep.finish(
         args,
         "exploration",
-        "a registry of 39 stochastic operations (all selectors and weighted combinations, composed pipelines, GenomeScorer, bit-flip and UMAD mutators, both crossovers on all genome flavours, Bitstring / Bool / collection generators, OneOfCloning / ChooseCloning / Choose / uniform_distribution_of!, GeneGenerator, Plushy and individual generators) x the stated number of seeds with input / output sizes 0..2049 derived from the seed (word and block boundaries included), each run three times (second run on another thread, third run after a reversed call history, fixtures rebuilt); interleaved call histories on shared operator values; random Push programs with up to 5 named inputs run under every declaration order. distinct_nontrivial = distinct (operation, seed) pairs + distinct programs",
+        "a registry of 41 stochastic operations (all selectors and weighted combinations, composed pipelines, GenomeScorer, bit-flip and UMAD mutators, both crossovers on all genome flavours, Bitstring / Bool / collection generators, OneOfCloning / ChooseCloning / Choose / uniform_distribution_of!, GeneGenerator, Plushy and individual generators) x the stated number of seeds with input / output sizes 0..2049 derived from the seed (word and block boundaries included), each run three times (second run on another thread, third run after a reversed call history, fixtures rebuilt); interleaved call histories on shared operator values; random Push programs with up to 5 named inputs run under every declaration order. distinct_nontrivial = distinct (operation, seed) pairs + distinct programs",
         false,
         &[
             "a hidden source of randomness would have to coincide between two runs on two threads to go unnoticed",
